@@ -2,12 +2,13 @@
 import numpy as np
 
 from vlib import core, scen, scengen
-from props import c05
+from props import c05, trainmodel
 
 IMPORTS = scen.IMPORTS
-TRUSTED = ["online training chunking and the ESN node are decided on the implementation by the oracle; the Coq side proves the generic fold law "
-           "(C07_train_app) and relies on C10's model for the learning rules themselves"]
-ASSUMPTIONS = ["no operation is nested inside another one (proxies are None at rest); forced feedback is excluded from chunked training by the property itself"]
+TRUSTED = ["chunked training of single online NODES and the ESN node are decided on the implementation by the oracle; for nodes the Coq side proves the "
+           "generic fold law (C07_train_app) and relies on C10's model for the learning rules themselves"] + trainmodel.TRUSTED
+ASSUMPTIONS = ["no operation is nested inside another one (proxies are None at rest); forced feedback is excluded from chunked training by the property itself "
+               "(C07_modeltrain_forced_* state what holds and what does not)"] + trainmodel.ASSUMPTIONS
 
 
 def cuts(rng, T):
@@ -60,12 +61,17 @@ def correspondence(ctx):
         if len(sc["ops"]) >= 2:
             nt.add(repr(scen.jsonable(sc)))
     failing, err = core.run_cases(ctx.pid, IMPORTS, terms, chunk=60)
-    return {"evaluations": n, "distinct_nontrivial": len(nt),
+    # online training of a model in successive calls (coq/model/TrainModel.v, run/RunTrain.v), evaluated under the sub-id <pid>_modeltrain
+    mt = trainmodel.run(ctx, ctx.n(40, 300))
+    dist["modeltrain"] = dict({k: mt[k] for k in ("evaluations", "distinct_nontrivial", "distribution", "rule")}, disagree=len(mt["failing"]))
+    if mt["error"]:
+        err = (err or "") + "modeltrain: " + mt["error"]
+    return {"evaluations": n + mt["evaluations"], "distinct_nontrivial": len(nt) + mt["distinct_nontrivial"],
             "rule": "a sequence of 2-7 steps cut at random points (pieces of length one run as single calls) on random DAG models (incl. hidden-memory nodes) "
                     "and feedback loops; every piece is compared with the model, which carries states and hidden memory across pieces; "
                     "non-trivial = at least two pieces; distinct by scenario text",
             "samples": keep[:2], "distribution": dist, "tolerance": "1e-9 relative (qclose)",
-            "failing": [dict(keep[i], index=i) for i in failing], "error": err}
+            "failing": [dict(keep[i], index=i) for i in failing] + mt["failing"], "error": err}
 
 
 # ------------------------------------------------------------------------------------------ oracle on the implementation
@@ -237,7 +243,7 @@ def _judge_special(rng, tag):
 
 def judge(case):
     sc = case["scenario"]
-    return _judge(sc) if "X" in sc else None
+    return _judge(sc) if "X" in sc and case.get("kind") != "modeltrain" else None
 
 
 def oracle(ctx, scale=1):
@@ -257,6 +263,9 @@ def oracle(ctx, scale=1):
 
 
 def replay(payload):
+    mt = [c for c in payload.get("corr_cases", []) if c.get("kind") == "modeltrain"]
+    if mt:                                     # a disagreeing Model.train history stored by the correspondence
+        return trainmodel.replay(mt[0])
     sc = payload["scenario"]
     if "X" in sc:
         v = _judge(sc)
